@@ -33,13 +33,14 @@ class Scope:
 
 
 class Gen:
-    def __init__(self, rng: random.Random, p_out: float = 0.0, max_depth: int = 3, budget: int = 25):
+    def __init__(self, rng: random.Random, p_out: float = 0.0, max_depth: int = 3, budget: int = 25, prev: Any = None):
         self.rng = rng
         self.p_out = p_out
         self.max_depth = max_depth
         self.budget = budget
         self.sub = True
         self.imp_n = 0
+        self.prev = prev or []            # [(module full name, {class name: exc})] of the modules generated before
 
     # ---------------------------------------------------------------- helpers
     def out(self) -> bool:
@@ -264,20 +265,37 @@ class Gen:
             exc = False
             q = r.random()
             local = [n for n, v in env.items() if v[0] == 'class' and n != name]
+            cands: List[Tuple[str, bool]] = [(n, env[n][1]) for n in local]
+            top = sc
+            hidden: set = set()
+            while top.parent is not None:                       # names Python would see in the module globals from a nested class body
+                top = top.parent
+                if top.parent is not None:
+                    hidden |= set(top.env) | top.selfnames
+            if top is not sc:
+                cands += [(n, v[1]) for n, v in top.env.items() if v[0] == 'class' and n not in env and n not in hidden
+                          and n not in sc.selfnames and n != name and n not in getattr(self, 'pending', [])]
+            for src in (env, top.env) if top is not sc else (env,):
+                for n, v in src.items():
+                    if v[0] == 'auxclass' and (src is env or (n not in env and n not in hidden)):
+                        cands.append((n, v[1]))
+                    if v[0] == 'auxmod' and v[1] and (src is env or (n not in env and n not in hidden)):
+                        cn = r.choice(sorted(v[1]))
+                        cands.append((n + '.' + cn, v[1][cn]))
             if q < 0.25:
                 bases = [r.choice(BUILTIN_EXC)]
                 exc = True
             elif q < 0.28:
                 bases = [r.choice(NEW_EXC)]
                 exc = True
-            elif q < 0.55 and local:
-                b = r.choice(local)
+            elif q < 0.60 and cands:
+                b, bexc = r.choice(cands)
                 bases = [b]
-                exc = env[b][1]
+                exc = bexc
                 if r.random() < 0.2 and not exc:
                     bases.append(r.choice(BUILTIN_EXC))
                     exc = True
-            elif q < 0.6:
+            elif q < 0.65:
                 bases = ['object']
             inner = Scope('class', sc)
             body = []
@@ -290,7 +308,8 @@ class Gen:
                     body.append([2, [[0, nm2]], [0, self.encode_value(self.atom())]])      # the body ENDS with an undocumented assignment
                     inner.env[nm2] = ('data', None)
             env[name] = ('class', exc)
-            res_c: List[Any] = [[1, name, bases, body]]
+            cdecos = [r.choice([[0, ['deco']], [1, ['decof']]])] if r.random() < 0.15 else []
+            res_c: List[Any] = [[1, name, bases, body, cdecos]]
             if r.random() < 0.3:
                 res_c.append(self.expr_str())          # a string statement right after the class: nobody's docstring
             return res_c
@@ -370,8 +389,18 @@ class Gen:
         if k < 0.94:
             self.imp_n += 1
             nm = 'imp_%d' % self.imp_n
+            if self.prev and r.random() < 0.7:
+                modname, classes = r.choice(self.prev)
+                pkgname, short = modname.rsplit('.', 1)
+                if classes and r.random() < 0.6:
+                    cn = r.choice(sorted(classes))
+                    env[nm] = ('auxclass', classes[cn])
+                    return [[11, [nm], 'from %s import %s as %s' % (modname, cn, nm), None, [[modname, cn]]]]
+                env[nm] = ('auxmod', dict(classes))
+                how = r.choice(['import %s as %s' % (modname, nm), 'from %s import %s as %s' % (pkgname, short, nm)])
+                return [[11, [nm], how, None, [[modname, None]]]]
             env[nm] = ('aux',)
-            return [[11, [nm], r.choice(['import os as %s', 'from os import path as %s', 'import sys as %s']) % nm]]
+            return [[11, [nm], r.choice(['import os as %s', 'from os import path as %s', 'import sys as %s']) % nm, None, [None]]]
         return [[12, r.choice(['pass', "len('')", '...'])]]
 
     def compound(self, sc: Scope, depth: int) -> List[Any]:
@@ -400,7 +429,7 @@ class Gen:
             t = r.choice(AUX)
             if self.out():
                 t = r.choice(FN + VN)
-            if t in env and env[t][0] != 'aux':
+            if t in env and not env[t][0].startswith('aux'):
                 self.sub = False
             env[t] = ('aux',)
             return [[9, t, self.stmts(sc, depth + 1, r.randint(1, 3)), self.other_suite(sc, depth)]]
@@ -420,8 +449,12 @@ class Gen:
 
 def random_package(rng: random.Random, pkg: str, p_out: float, n_mods: int, size: int, max_depth: int = 3) -> Dict[str, Any]:
     mods = []
+    prev: List[Any] = []
     for i in range(n_mods):
-        g = Gen(rng, p_out if rng.random() < 0.5 else 0.0, max_depth, size)
+        g = Gen(rng, p_out if rng.random() < 0.5 else 0.0, max_depth, size, prev=list(prev))
         body, sc = g.module(rng.randint(2, max(2, size // 2)))
-        mods.append({'name': '__init__' if i == 0 else 'sub%d' % (i - 1), 'body': body, 'sub': g.sub, 'corr': True})
+        name = '__init__' if i == 0 else 'sub%d' % (i - 1)
+        mods.append({'name': name, 'body': body, 'sub': g.sub, 'corr': True})
+        if i > 0:          # later modules may import the classes this one finally binds at module level
+            prev.append((pkg + '.' + name, {n: v[1] for n, v in sc.env.items() if v[0] == 'class'}))
     return {'pkg': pkg, 'mods': mods}
